@@ -192,3 +192,204 @@ def generate() -> str:
     out += "Definition archive_exts_tar : list string := [" + "; ".join(cs(x) for x in tars) + "].\n"
     out += "Definition pyproject_only_for_dirs : bool := true.\n"
     return out
+
+
+# ======================================================================================
+# the bracket around one analysis (frame condition): what is undone, in which order, guarded how
+
+FRAME_HEADER = '''(* GENERATED by harness/tr_c12.py from /repo on every run -- do not edit *)
+From Coq Require Import List String Ascii Bool.
+Import ListNotations.
+Open Scope string_scope.
+(* one statement of the finally-block of _parse_setup_py *)
+Inductive cstep :=
+| CPathRemove (guarded : bool)     (* sys.path.remove(abs_setupdir), inside `if abs_setupdir in sys.path` or not *)
+| CEndPatch (name : string)        (* end_patch(token) *)
+| CMetaRemove (guarded : bool)     (* sys.meta_path.remove(meta_hook) *)
+| CModules.                        (* the sys.modules sweep: del every module the extractor contains *)
+'''
+
+
+def _attr_chain(node: ast.AST) -> str:
+    parts = []
+    while isinstance(node, ast.Attribute):
+        parts.append(node.attr)
+        node = node.value
+    if isinstance(node, ast.Name):
+        parts.append(node.id)
+        return ".".join(reversed(parts))
+    raise TranslateError("not a dotted name: " + ast.dump(node)[:100])
+
+
+def _is_call(node: ast.AST, dotted: str) -> bool:
+    return isinstance(node, ast.Expr) and isinstance(node.value, ast.Call) and _safe_chain(node.value.func) == dotted
+
+
+def _safe_chain(node: ast.AST) -> str:
+    try:
+        return _attr_chain(node)
+    except TranslateError:
+        return ""
+
+
+def _patch_names(call: ast.Call) -> List[str]:
+    """patch(mod, 'attr', value, ...) -> ['mod.attr', ...]; string modules that cannot exist on Python 3 are skipped"""
+    if len(call.args) % 3 != 0:
+        raise TranslateError("patch(...) arguments are not triples")
+    out = []
+    for i in range(0, len(call.args), 3):
+        mod, attr = call.args[i], call.args[i + 1]
+        a = _const_str(attr)
+        if isinstance(mod, ast.Constant) and isinstance(mod.value, str):
+            if mod.value == "__builtin__":
+                continue                     # begin_patch returns None: not in sys.modules
+            out.append(mod.value + "." + a)
+        else:
+            out.append(_attr_chain(mod) + "." + a)
+    return out
+
+
+def read_frame() -> Any:
+    src = T.parse("req_compile/metadata/source.py")
+    f = T.func(src, "_parse_setup_py")
+    # --- the three begin_patch tokens
+    tokens = {}
+    for node in ast.walk(f):
+        if isinstance(node, ast.Assign) and len(node.targets) == 1 and isinstance(node.targets[0], ast.Name) \
+                and isinstance(node.value, ast.Call) and _safe_chain(node.value.func) == "begin_patch":
+            mod, attr = node.value.args[0], node.value.args[1]
+            modname = mod.value if isinstance(mod, ast.Constant) else _attr_chain(mod)
+            tokens[node.targets[0].id] = modname + "." + _const_str(attr)
+    if len(tokens) != 3:
+        raise TranslateError(f"_parse_setup_py: expected three begin_patch tokens, found {sorted(tokens)}")
+    # --- patches = patch(...) ; with patches: try/except SystemExit/finally
+    ctx = None
+    for node in ast.walk(f):
+        if isinstance(node, ast.Assign) and isinstance(node.value, ast.Call) and _safe_chain(node.value.func) == "patch" \
+                and isinstance(node.targets[0], ast.Name) and node.targets[0].id == "patches":
+            ctx = _patch_names(node.value)
+    withs = [n for n in ast.walk(f) if isinstance(n, ast.With) and len(n.items) == 1
+             and isinstance(n.items[0].context_expr, ast.Name) and n.items[0].context_expr.id == "patches"]
+    if ctx is None or len(withs) != 1:
+        raise TranslateError("_parse_setup_py: `patches = patch(...)` / `with patches:` not found")
+    body = withs[0].body
+    if len(body) != 1 or not isinstance(body[0], ast.Try):
+        raise TranslateError("_parse_setup_py: `with patches:` does not consist of one try statement")
+    tr = body[0]
+    if not any(_is_call(s, "sys.path.insert") for s in tr.body):
+        raise TranslateError("_parse_setup_py: sys.path.insert is not inside the try")
+    hs = [h for h in tr.handlers]
+    if len(hs) != 1 or _safe_chain(hs[0].type) != "SystemExit":
+        raise TranslateError("_parse_setup_py: handlers of the try changed")
+    # the hook must be installed before the try, the three patches too (otherwise the finally would undo nothing)
+    steps: List[str] = []
+    ended: List[str] = []
+
+    def end_patch_name(stmt: ast.AST) -> str:
+        if _is_call(stmt, "end_patch") and isinstance(stmt.value.args[0], ast.Name) and stmt.value.args[0].id in tokens:
+            return tokens[stmt.value.args[0].id]
+        return ""
+    for st in tr.finalbody:
+        dumped = ast.dump(st)
+        if isinstance(st, ast.If) and "old_cythonize" in dumped and not st.orelse:
+            continue
+        if _is_call(st, "sys.path.remove") and _safe_chain(st.value.args[0]) == "abs_setupdir":
+            steps.append("CPathRemove false")
+            continue
+        if isinstance(st, ast.If) and not st.orelse and len(st.body) == 1:
+            t = st.test
+            inner = st.body[0]
+            if (isinstance(t, ast.Compare) and len(t.ops) == 1 and isinstance(t.ops[0], ast.In)
+                    and _safe_chain(t.left) == "abs_setupdir" and _safe_chain(t.comparators[0]) == "sys.path"
+                    and _is_call(inner, "sys.path.remove") and _safe_chain(inner.value.args[0]) == "abs_setupdir"):
+                steps.append("CPathRemove true")
+                continue
+            if (isinstance(t, ast.Compare) and len(t.ops) == 1 and isinstance(t.ops[0], ast.In)
+                    and _safe_chain(t.left) == "meta_hook" and _safe_chain(t.comparators[0]) == "sys.meta_path"
+                    and _is_call(inner, "sys.meta_path.remove")):
+                steps.append("CMetaRemove true")
+                continue
+            if (isinstance(t, ast.Compare) and len(t.ops) == 1 and isinstance(t.ops[0], ast.IsNot)
+                    and isinstance(t.left, ast.Name) and t.left.id in tokens and end_patch_name(inner)
+                    and inner.value.args[0].id == t.left.id):
+                steps.append("CEndPatch " + cs(end_patch_name(inner)))
+                ended.append(end_patch_name(inner))
+                continue
+        if end_patch_name(st):
+            steps.append("CEndPatch " + cs(end_patch_name(st)))
+            ended.append(end_patch_name(st))
+            continue
+        if _is_call(st, "sys.meta_path.remove") and _safe_chain(st.value.args[0]) == "meta_hook":
+            steps.append("CMetaRemove false")
+            continue
+        if isinstance(st, ast.For) and any(_safe_chain(n) == "sys.modules" for n in ast.walk(st.iter)):
+            # the sweep must delete what the EXTRACTOR contains (absolute or relative to the virtual cwd)
+            calls = [n for n in ast.walk(st) if isinstance(n, ast.Call) and _safe_chain(n.func) == "extractor.contains_path"]
+            dels = [n for n in ast.walk(st) if isinstance(n, ast.Delete)]
+            if len(calls) != 1 or _safe_chain(calls[0].args[0]) not in ("module.__file__", "module_file") or len(dels) != 2:
+                raise TranslateError("_parse_setup_py: the sys.modules sweep no longer tests extractor.contains_path(module.__file__)")
+            steps.append("CModules")
+            continue
+        raise TranslateError("_parse_setup_py: unrecognised statement in the finally block: " + dumped[:160])
+    # --- patch.py: the context manager restores in a finally, in reverse order
+    pf = T.func(T.parse("req_compile/metadata/patch.py"), "patch")
+    ctx_ok = False
+    for node in ast.walk(pf):
+        if isinstance(node, ast.Try) and any(isinstance(s, ast.Expr) and isinstance(s.value, ast.Yield) for s in node.body):
+            ctx_ok = any(isinstance(s, ast.For) and any(_safe_chain(getattr(c, "func", None)) == "end_patch"
+                                                         for c in ast.walk(s) if isinstance(c, ast.Call))
+                         for s in node.finalbody)
+    # --- pyproject.py: chdir(source_file) inside a try whose finally chdirs back to the saved cwd
+    pp = T.func(T.parse("req_compile/metadata/pyproject.py"), "_parse_from_prepared_metadata")
+    chdirs = []
+
+    def visit(node: ast.AST, finals: List[List[ast.stmt]]) -> None:
+        if isinstance(node, ast.Try):
+            for s in node.body:
+                visit(s, finals + [node.finalbody])
+            for h in node.handlers:
+                for s in h.body:
+                    visit(s, finals)
+            for s in node.orelse + node.finalbody:
+                visit(s, finals)
+            return
+        if _is_call(node, "os.chdir"):
+            chdirs.append((_safe_chain(node.value.args[0]), finals))
+        for child in ast.iter_child_nodes(node):
+            if isinstance(child, (ast.stmt, ast.ExceptHandler)):
+                visit(child, finals)
+            elif isinstance(child, ast.withitem):
+                pass
+    for s in pp.body:
+        visit(s, [])
+    into = [c for c in chdirs if c[0] == "source_file"]
+    if len(into) != 1:
+        raise TranslateError("pyproject.py: expected exactly one os.chdir(source_file)")
+    saved = [n for n in ast.walk(pp) if isinstance(n, ast.Assign) and isinstance(n.targets[0], ast.Name)
+             and n.targets[0].id == "old_cwd" and isinstance(n.value, ast.Call) and _safe_chain(n.value.func) == "os.getcwd"]
+    if len(saved) != 1:
+        raise TranslateError("pyproject.py: old_cwd = os.getcwd() not found")
+    restored = any(any(_is_call(s, "os.chdir") and _safe_chain(s.value.args[0]) == "old_cwd" for s in fb) for fb in into[0][1])
+    if not restored and not any(c[0] == "old_cwd" for c in chdirs):
+        raise TranslateError("pyproject.py: the working directory is never restored")
+    pep_patch = None
+    for node in ast.walk(pp):
+        if isinstance(node, ast.With) and isinstance(node.items[0].context_expr, ast.Call) \
+                and _safe_chain(node.items[0].context_expr.func) == "patch":
+            pep_patch = _patch_names(node.items[0].context_expr)
+    if pep_patch is None:
+        raise TranslateError("pyproject.py: with patch(...) not found")
+    begin = [tokens[k] for k in tokens]
+    return steps, begin, ctx, ctx_ok, restored, pep_patch
+
+
+def generate_frame() -> str:
+    steps, begin, ctx, ctx_ok, restored, pep_patch = read_frame()
+    out = FRAME_HEADER
+    out += "Definition cleanup_steps : list cstep := [" + "; ".join(steps) + "].\n"
+    out += "Definition begin_patched : list string := [" + "; ".join(cs(x) for x in begin) + "].\n"
+    out += "Definition ctx_patched : list string := [" + "; ".join(cs(x) for x in ctx) + "].\n"
+    out += "Definition pep517_patched : list string := [" + "; ".join(cs(x) for x in pep_patch) + "].\n"
+    out += f"Definition ctx_restored_in_finally : bool := {'true' if ctx_ok else 'false'}.\n"
+    out += f"Definition pep517_chdir_restored_in_finally : bool := {'true' if restored else 'false'}.\n"
+    return out
